@@ -73,7 +73,7 @@ type ReqSpec struct {
 	Msgs      []MsgSpec   `json:"msgs"`
 	Sep       string      `json:"sep,omitempty"` // json streams: separator between objects
 	BodyCT    string      `json:"body_ct,omitempty"` // HttpBody uploads over plain HTTP: the request's Content-Type ("" = image/jpeg); also media types for which a message codec is registered
-	Accept    string      `json:"accept,omitempty"` // plain HTTP: ask for the response as json | proto (an Accept header; may differ from the request's own Content-Type)
+	Accept    string      `json:"accept,omitempty"` // plain HTTP: ask for the response as json | proto (an Accept header; may differ from the request's own Content-Type) | other (text/html: matches nothing, the response follows the request's own Content-Type)
 	SepEnd    bool        `json:"sep_end,omitempty"` // ... and after the last one too (newline-delimited JSON ends every line with its newline)
 	Timeout   string      `json:"timeout,omitempty"`
 	PingPong  bool        `json:"ping_pong,omitempty"`
@@ -543,7 +543,7 @@ func (r *reqState) encode() {
 		}
 	}
 	if sp.Accept != "" && sp.Proto == "http" {
-		h.Set("Accept", map[string]string{"json": "application/json", "proto": "application/protobuf"}[sp.Accept])
+		h.Set("Accept", map[string]string{"json": "application/json", "proto": "application/protobuf", "other": "text/html"}[sp.Accept])
 	}
 	if sp.Slash && sp.Proto == "http" {
 		path += "/"
